@@ -50,6 +50,49 @@ def analyse(ck, prog, funcs, report):
 
 
 MIN_SCAN_LOOPS = 30
+RESULT_PARAMS = ("diff", "indicator", "resultp")
+
+
+def narrowing_rule(ck, funcs, report):
+    """clause: the ordering a comparison function reports is the difference of the first differing pair, computed without losing bits.
+    Where the value stored through the result parameter is (an extension of) a truncation of the difference of two loaded elements, its
+    sign is no longer the sign of the difference once the elements lie more than half the narrow range apart -- reported.
+    (Which pair is compared, and in which signedness the characters are read, is not judged here.)"""
+    n = 0
+    for fn in funcs:
+        outs = [fn.pnames[p]["id"] for p in RESULT_PARAMS if p in fn.pnames and fn.pnames[p]["ty"] == "i32*"]
+        if not outs:
+            continue
+        for i in fn.insts():
+            if i["op"] != "store" or i["ops"][1].get("k") != "v" or i["ops"][1]["id"] not in outs or i["ops"][0].get("k") != "v":
+                continue
+            n += 1
+            v, hops, narrowed = i["ops"][0], 0, None
+            while v.get("k") == "v" and hops < 6:
+                d = fn.defs.get(v["id"])
+                if d is None:
+                    break
+                if d["op"] == "trunc" and d["bits"] < 32:
+                    narrowed = d
+                if d["op"] in ("sext", "zext", "trunc"):
+                    v = d["ops"][0]; hops += 1
+                    continue
+                if d["op"] == "sub" and narrowed is not None:
+                    # operands: (extensions of) loaded elements at least as wide as the narrowed value
+                    def elem_bits(o):
+                        dd = fn.defs.get(o.get("id")) if o.get("k") == "v" else None
+                        while dd is not None and dd["op"] in ("sext", "zext"):
+                            dd = fn.defs.get(dd["ops"][0].get("id"))
+                        return dd["bits"] if dd is not None and dd["op"] == "load" and "bits" in dd else None
+                    eb = [elem_bits(o) for o in d["ops"]]
+                    if all(b is not None and b >= narrowed["bits"] for b in eb):
+                        report("C10:difference-narrowed:%s" % api.base_name(fn.name), "R-difference-not-narrowed", fn.loc(narrowed),
+                               "%s stores the difference of two %d-bit elements after truncating it to %d bits: for elements more than 0x%x apart the sign of the stored value is the opposite of the ordering"
+                               % (api.base_name(fn.name), eb[0], narrowed["bits"], (1 << (narrowed["bits"] - 1)) - 1))
+                break
+    return n
+
+
 
 
 def scan_rule(ck, funcs, report):
@@ -84,14 +127,17 @@ def run(ck):
     sc = scan_rule(ck, funcs, ck.report)
     if sc["loops_covered"] < MIN_SCAN_LOOPS:
         ck.fail_broken("scan completeness: only %d budgeted scan loops recognised (< %d)" % (sc["loops_covered"], MIN_SCAN_LOOPS))
+    nres = narrowing_rule(ck, funcs, ck.report)
+    if nres < 10:
+        ck.fail_broken("narrowing rule: only %d stores of a variable value through result parameters found (< 10)" % nres)
     fx = selftest(ck)
-    cov = dict(scan_completeness=sc, explanation="For each of the %d exported query functions anchored by the property, every operand parameter (%d pointers named dest/src/str/key/base) "
+    cov = dict(scan_completeness=sc, result_stores_checked_for_narrowing=nres, explanation="For each of the %d exported query functions anchored by the property, every operand parameter (%d pointers named dest/src/str/key/base) "
                "is followed through getelementptr/casts/phi/select/integer round trips and through every library callee (inter-procedural write summaries, fixpoint over "
                "the call graph); a store or a writing effect on a derived pointer is a violation. Passing the pointer to the registered constraint handler or to the caller's "
                "comparator, and storing an interior pointer into an out-parameter, are not writes. Scan completeness: in %d budgeted scan loops (a counter from a length argument decreasing by a constant, a cursor advancing by a constant) every exit "
                "taken for lack of budget (%d exit paths whose guards pin the counter) happens only after all `budget` elements were examined. Beyond that, result equality with the libc counterparts is not decided."
                % (len(funcs), n_ops, sc["loops_covered"], sc["budget_exits"]),
-               obligations=n_ops, discharged=n_ops - len({(r["key"].split(":")[2], r["key"].split(":")[3]) for r in ck.reports}),
+               obligations=n_ops, discharged=n_ops - len({tuple(r["key"].split(":")[2:4]) for r in ck.reports if r["key"].startswith("C10:operand-modified:")}),
                functions=len(funcs), operands=n_ops, fixtures=fx, frontend=info, exhaustive=True,
                summary="%d query functions, %d operand pointers, none written" % (len(funcs), n_ops))
     return ck.finish(cov, ["libc effect table (sa/effects.py) for external callees", "the constraint handler and the caller's comparator are caller code"])
@@ -114,4 +160,9 @@ def selftest(ck):
     out["scan"] = dict(fired=sorted(got2), loops_covered=r["loops_covered"])
     if sorted(got2) != want2 or r["loops_covered"] != 6:
         ck.fail_broken("fixture c10.c: scan completeness got %s (%d loops), expected %s (6 loops)" % (sorted(got2), r["loops_covered"], want2))
+    got3 = []
+    nn = narrowing_rule(B(), [prog.funcs[n] for n in ("cmp16_good", "cmp16_narrowed")], lambda key, *a: got3.append(key))
+    out["narrowing"] = dict(fired=got3, stores=nn)
+    if got3 != ["C10:difference-narrowed:cmp16_narrowed"]:
+        ck.fail_broken("fixture c10.c: narrowing rule got %s" % got3)
     return out
